@@ -141,7 +141,9 @@ func (in c17In) auxText() string    { return in.salted(c17Aux[in.aux%len(c17Aux)
 func (in c17In) exprText(i int) string {
 	return c17Exprs[(in.stmt+i)%len(c17Exprs)] + " AND tag = 'cpu_" + in.s() + "'"
 }
-func (in c17In) strings() []string { return append([]string{"cpu_" + in.s(), "it's " + in.s()}, c17Strings...) }
+func (in c17In) strings() []string {
+	return append([]string{"cpu_" + in.s(), "it's " + in.s()}, c17Strings...)
+}
 
 func c17Build(in c17In) *c17Obj {
 	q, err := influxql.ParseQuery(in.auxText() + "; " + in.selectText())
